@@ -153,6 +153,7 @@ func specGenuineER6(s *icmpDriver, p *packets.FrameParser, t uint8) bool {
 // and the raw sink) is closed again on every path, handles that were open before are left alone, and an error comes
 // with no result. Handles are open whenever the engine runs (they are closed only by the deferred driver.Close()).
 //@ func runICMPTraceroute
+//@ ensures[ghost.mono]  sendN >= old(sendN)
 //@ safety C10
 //@ requires[pre.ctx]          ctx != nil && sendN >= 0
 //@ ensures[C10.icmp.atom]     ret1 != nil ==> ret0 == nil
@@ -163,6 +164,7 @@ func specGenuineER6(s *icmpDriver, p *packets.FrameParser, t uint8) bool {
 //@ modifies *, ghost isOpen, ghost closeN, ghost clock, ghost sendN, ghost sendLog, ghost sendClock
 
 //@ func RunICMPTraceroute
+//@ ensures[ghost.mono]  sendN >= old(sendN)
 //@ safety C10
 //@ requires[pre.ctx]          ctx != nil && sendN >= 0
 //@ ensures[C10.entry.atom]    ret1 != nil ==> ret0 == nil
